@@ -221,12 +221,21 @@ Proof. exact ibbf_no_lost_wakeup_run. Qed.
 Print Assumptions C06_ibb_read_progress.
 
 (* ... and a blocked reader is woken by the next accepted packet *)
-Theorem C06_ibb_waiting_reader_is_woken : forall tr s n s1 s2,
+Theorem C06_ibb_waiting_reader_is_woken : forall tr s c n s1 s2,
   run ibbf_step ibbf_init tr = Some s -> fb_rd s = FWaiting -> fb_h s = FHIdle ->
-  ibbf_step s (FData n) = Some s1 -> ibbf_step s1 FCheck = Some s2 ->
+  ibbf_step s (FData c n) = Some s1 -> ibbf_step s1 FCheck = Some s2 ->
   exists s3, ibbf_step s2 FNotify = Some s3 /\ fb_rd s3 = FWoken true.
-Proof. intros tr s n s1 s2 R. exact (ibbf_waiting_is_woken s n s1 s2 (FInv_run tr s R)). Qed.
+Proof. intros tr s c n s1 s2 R. exact (ibbf_waiting_is_woken s c n s1 s2 (FInv_run tr s R)). Qed.
 Print Assumptions C06_ibb_waiting_reader_is_woken.
+
+(* What the table lemma [ibb_payload_always_notifies] excludes: message-carried
+   data appended without the notification leaves a blocked reader blocked. *)
+Theorem C06_ibb_msg_data_without_notify_refuted :
+  exists s, run ibbf_step_msg_silent ibbf_init [FRead 4; FWait; FData CMsg 3; FCheck] = Some s /\
+    fb_rd s = FWaiting /\ fb_h s = FHIdle /\ fb_buf s = 3 /\ fb_closed s = false /\
+    ~ f_no_lost_wakeup s.
+Proof. exact ibbf_msg_silent_loses_wakeup. Qed.
+Print Assumptions C06_ibb_msg_data_without_notify_refuted.
 
 (* io.EOF only on a closed stream *)
 Theorem C06_ibb_read_eof : forall tr s,
@@ -245,7 +254,7 @@ Print Assumptions C06_ibb_no_panic.
 Theorem C06_ibb_local_progress : forall s,
   (fb_rd s = FChecked -> ibbf_enabled s FWait) /\
   (forall o, fb_rd s = FWoken o -> fb_h s = FHIdle -> forall cap, ibbf_enabled s (FWake (S cap))) /\
-  (forall n, fb_h s = FHLocked n -> ibbf_enabled s FCheck) /\
+  (forall c n, fb_h s = FHLocked c n -> ibbf_enabled s FCheck) /\
   (fb_h s = FHNotify -> ibbf_enabled s FNotify).
 Proof. exact ibbf_local_progress. Qed.
 Print Assumptions C06_ibb_local_progress.
